@@ -10,7 +10,7 @@ on harness/groupfake and harness/fetchfake, real kafka.Transport/Client) judged 
 monitors and compared with runs of the extracted model (ocaml/c09r_driver.ml).
 
 ops of the second run (go result | model result):
-  e2e   concurrent lifecycle program; go = ok | HANG:… | LEAK:… | PANIC:…; model = ok | FAIL:<monitor names>
+  e2e   concurrent lifecycle program (modes p, g = Reader, t = bare Client/Transport, w = Writer on a real Transport); go = ok | HANG:… | LEAK:… | PANIC:…; model = ok | FAIL:<monitor names>
         (late_fetch, late_commit = the two clauses of mon_after_close; silent; leave)
   det   deterministic single-threaded scenario: the results of every step, on both sides
   cac   n CommitMessages calls after Close returned: <cp>:<ctx>:<nil>:<oth> counts; the model echoes
@@ -125,8 +125,17 @@ def reader_failures_of_case(c):
             elif part.startswith("PANIC"):
                 out.append(("property", "kafka-go panicked during a lifecycle scenario: " + part[:300], None))
             elif part.startswith("LEAK"):
-                if c["args"].startswith("t "):
-                    # kafka.Transport: outside the text of C09 (which speaks of Writer, Reader, ConsumerGroup); reported as an observation
+                if c["args"].startswith(("t ", "w ")):
+                    promise = "parked-in-promise" in tags or any(t.startswith("leak=") and ("async.resolve" in t or "async.reject" in t) for t in tags)
+                    if promise or "late-answer-family" in tags:
+                        out.append(("property", "after a round trip was abandoned through its context and the broker answered (or closed the connection) LATER, "
+                                                "Transport connection goroutines / connections are still there after Writer.Close / Transport.CloseIdleConnections and the "
+                                                "grace period" + (": a goroutine is parked in async.resolve / async.reject ((*conn).run cannot deliver the result: "
+                                                "the promise channel of sendRequest must have capacity 1, skeleton assumption T6)" if promise else "")
+                                                + ": " + part + " " + ",".join(t for t in tags if t.startswith("leak=")), None))
+                        continue
+                    # a broker that stays SILENT after the cancel: kafka.Transport reads without a deadline; outside the text of C09
+                    # (which speaks of Writer, Reader, ConsumerGroup); reported as an observation
                     continue
                 out.append(("property", "goroutines or connections of a Reader / ConsumerGroup outlive Close beyond the grace period: " + part
                             + " " + ",".join(t for t in tags if t.startswith("leak=")), None))
@@ -224,18 +233,21 @@ def reader_half(ctx):
     samples = [c["line"][:400] + " | " + c["go"][:60] + " | " + c["feats"][:160]
                for c in ([x for x in e2e if x["args"].startswith("g")][:2] + [x for x in e2e if x["args"].startswith("p")][:1]
                          + [x for x in cases if x["op"] == "det"][:1])]
-    tleaks = [c for c in e2e if c["args"].startswith("t ") and "LEAK" in c["go"]]
+    tleaks = [c for c in e2e if c["args"].startswith("t ") and "LEAK" in c["go"] and "late-answer-family" not in _tags(c) and "parked-in-promise" not in _tags(c)]
     return dict(
         evaluations=len(cases), distinct_nontrivial=len(dn), hist=hist, samples=samples, failures=failures,
         rule="Reader half: cases from the same PRNG seed in harness/cmd/c09r: concurrent lifecycle programs on the real kafka.Reader (partition mode and group "
              "mode; 1-4 callers issuing FetchMessage / ReadMessage / CommitMessages with contexts never / later / already cancelled; one or two Close calls at a "
              "random moment or on an event; new calls after the last Close; brokers slow, silent, refusing, dropping connections, answering error codes; "
              "rebalances by a second Reader, ForceRebalance, Evict; ReadLag on/off; CommitInterval 0 / >0; QueueCapacity 1..100) and on a real kafka.Transport "
-             "(round trips with contexts cancelled while the broker is silent); deterministic single-threaded scenarios (fetch k of N, commit, Close, fetch again) "
+             "(round trips with contexts cancelled while the broker is silent) and, in every run, the late-answer family: the context of a bare Client call, "
+             "of a Writer's produce / metadata round trip or of a Reader's request ends while the request is in flight and the broker answers or closes the "
+             "connection 1x..3x later, then Close + CloseIdleConnections + goroutine / connection census; deterministic single-threaded scenarios (fetch k of N, commit, Close, fetch again) "
              "compared with the model's run; n CommitMessages after Close; an e2e case counts when the implementation ran it under watchdogs and the extracted "
              "monitors judged its timeline; non-trivial = any feature tag beyond the fake used and kind ok/idle; distinct by hash of op+args.",
         extra=dict(reader_go_run_s=round(r["go_time"], 1), reader_scenarios=len(cases), reader_e2e=len(e2e),
                    reader_det_model_runs=sum(1 for c in cases if c["op"] == "det"),
+                   late_answer_scenarios=sum(1 for c in e2e if "late-answer-family" in _tags(c)),
                    reader_failing_case_count=failing,
                    reader_leave_excused=sum(1 for c in e2e if "leave" in str(c.get("model")) and any(t in ("leave-faulted", "evicted") for t in _tags(c))),
                    transport_observation=(f"{len(tleaks)} Transport scenario(s): after a round trip was abandoned through its context while the broker stays silent, "
